@@ -4,6 +4,7 @@ import (
 	"crypto/sha256"
 	"fmt"
 	"math/rand/v2"
+	"reflect"
 	"strings"
 	"sync"
 
@@ -173,6 +174,7 @@ func checkC14(c *run.Ctx) {
 				penv[k] = "shadowed"
 			}
 		}
+		penv0 := copyEnv(penv) // pristine copy: penv itself is handed to many Sign calls, the way SignSteps hands one map to every step
 		repo := gen.Pick(r, []string{"git@github.com:o/r.git", "https://x/y", "", "r"})
 		kinds := []string{"EdDSA", "EdDSA", "EdDSA", "ES512", "PS512", "ES256-signer"}
 		kp := all[kinds[i%len(kinds)]][0]
@@ -187,6 +189,18 @@ func checkC14(c *run.Ctx) {
 				c.Violation(id, map[string]any{"what": fmt.Sprintf("Sign failed or produced no debug payload: %v", err), "variant": desc})
 				ok = false
 				return nil
+			}
+			if reflect.ValueOf(pe).Pointer() == reflect.ValueOf(penv).Pointer() {
+				// the payload depends on content only, not on what earlier Sign calls did with the same env map
+				_, fresh, ferr := signStep(k, st, rp, copyEnv(penv0))
+				if ferr == nil && string(fresh) != string(payload) {
+					c.Violation(id, map[string]any{"what": "the payload for one step, env content, repository and algorithm differs between an env map that earlier Sign calls were given and a fresh copy of the same content (payload depends on signing history)",
+						"variant": desc, "payload_shared_map": clip(string(payload), 3000), "payload_fresh_copy": clip(string(fresh), 3000), "pipeline_env": penv0})
+					ok = false
+					return nil
+				}
+				c.Count("payloads_compared_shared_vs_fresh_env_map", 1)
+				pe = penv0
 			}
 			sem := semanticForm(st, pe, rp, k.Alg)
 			c.Eval(1)
